@@ -4,6 +4,10 @@
    the correspondence check runs [ieee] against the implementation bit for bit (DESIGN.md 3.2). *)
 From BT Require Import Base.Util Base.Float Model.RTree Model.BBIFile Model.BigWigWrite Model.BedSweep Spec.Depth Model.EntryBedSweep Proofs.BedFile
   Proofs.DepthStats Proofs.SweepRLE Proofs.BedSummary Proofs.BedIeee Proofs.BwSummary Proofs.BwCollect.
+(* the reader on the bytes of the written file (C01 / C02 whole-file developments): used qualified, the
+   bigBed writer model has its own [entry] / [bchrom] *)
+From BT Require Model.BBIRead Model.BigBedWrite Model.BBIReadBed Proofs.RTreeCodec Proofs.BigWigFileRoundTrip
+  Proofs.BedEndToEnd Proofs.BedZoomFit Proofs.C06FileFloat Proofs.C06FileRead Proofs.C06FileBed Proofs.C06FileIeee.
 Local Open Scope N_scope.
 
 (* ---- bigWig ----
@@ -133,3 +137,174 @@ Proof.
   - repeat constructor; vm_compute; discriminate.
   - do 4 eexists. split; [vm_compute; reflexivity|]. split; vm_compute; reflexivity.
 Qed.
+
+(* ================= the last link: the READER on the BYTES of the written file =================
+   write_info patches the summary block (bases u64, min, max, sum, sum of squares as f64 bit patterns)
+   at the header's summary offset and a u64 count at the data offset; get_summary / item_count read
+   them back.  [C06FileRead.stored cnt s] is what the reader returns: count and bases verbatim, each
+   statistic through f64_of_bits (bits_of_f64 _). *)
+
+(* the binary64 field codec: a value that is a binary64 number (in whatever mantissa/exponent pair the
+   model carries it) comes back denoting the same number, with exponent >= -1074; NaN and the
+   infinities come back as themselves; every pattern fits the 8-byte field *)
+Theorem C06_f64_roundtrip : forall x, C06FileFloat.rep64 x ->
+  C06FileFloat.same_num (C06FileFloat.f64_rt x) x /\
+  match x with FFin _ _ => fin_ge (-1074) (C06FileFloat.f64_rt x) | _ => C06FileFloat.f64_rt x = x end /\
+  bits_of_f64 x < 18446744073709551616.
+Proof. exact C06FileFloat.f64_roundtrip. Qed.
+Print Assumptions C06_f64_roundtrip.
+
+(* bigWig, every rounding mode, both writers, every accepted input (hypotheses = C01's): read_info
+   succeeds on the bytes and get_summary returns the stored form of the summary bw_collect folded
+   (the one C06_bw_summary is about), with su_items = the number of data sections (what bigWig keeps
+   in the count slot) *)
+Theorem C06_bw_file_stored : forall fp o sizes inp bs,
+  BigWigFileRoundTrip.opts_ok o -> BigWigFileRoundTrip.input_ok sizes inp -> Nlen bs < RTreeCodec.U64 ->
+  bw_write fp o sizes inp = Ok bs \/ bw_write_multipass fp o sizes inp = Ok bs ->
+  exists ids outs sum data i,
+    bw_collect fp o sizes inp = Ok (ids, outs, sum, data) /\ BBIRead.read_info bs = Ok i /\
+    BBIRead.read_summary bs i = Ok (C06FileRead.stored (C06FileRead.bw_section_count o inp) sum).
+Proof. exact C06FileRead.bw_file_stored. Qed.
+Print Assumptions C06_bw_file_stored.
+
+(* bigWig end to end, exact arithmetic: values finite dyadics in units 2^E (E <= -1074 is below the
+   exponent of every binary32 and binary64, so this is no restriction on the values); if the exact sum
+   and sum of squares are binary64 numbers at all, the summary the READER reports on the written bytes
+   denotes: bases = sum of lengths, sum = sum len*val, sumsq = sum len*val^2, min / max = the least /
+   largest value folded from +-f64::MAX (C06_bw_min_of_values), items = number of data sections.
+   (The extremes need no hypothesis: they are stored values, every binary32 is a binary64.) *)
+Theorem C06_bw_file_summary : forall E o sizes inp bs,
+  (E <= -1074)%Z -> Forall (fun it => vfin E (snd it)) inp ->
+  BigWigFileRoundTrip.opts_ok o -> BigWigFileRoundTrip.input_ok sizes inp -> Nlen bs < RTreeCodec.U64 ->
+  bw_write exact o sizes inp = Ok bs \/ bw_write_multipass exact o sizes inp = Ok bs ->
+  let all := map snd inp in
+  C06FileRead.is_f64 E (w_sum E all) -> C06FileRead.is_f64 (E + E) (w_sumsq E all) ->
+  exists i s, BBIRead.read_info bs = Ok i /\ BBIRead.read_summary bs i = Ok s /\
+    wform E s (C06FileRead.bw_section_count o inp) (w_bases all) (w_sum E all) (w_sumsq E all)
+          (w_min E all (fval E f64_max)) (w_max E all (fval E f64_min)).
+Proof. exact C06FileRead.bw_file_summary. Qed.
+Print Assumptions C06_bw_file_summary.
+
+(* bigWig in the IEEE-754 instance (binary64 round-to-nearest-even: the instance compared bit for bit
+   with the implementation on every run), NO hypothesis on the values: every statistic the writer folds
+   is the result of a binary64 rounding, a stored binary32, +-f64::MAX or zero, so the field codec loses
+   nothing and the summary the reader reports on the written bytes denotes, field by field, the summary
+   that was handed to the writer (bases and section count verbatim) *)
+Theorem C06_bw_file_summary_ieee : forall o sizes inp bs,
+  BigWigFileRoundTrip.opts_ok o -> BigWigFileRoundTrip.input_ok sizes inp -> Nlen bs < RTreeCodec.U64 ->
+  bw_write ieee o sizes inp = Ok bs \/ bw_write_multipass ieee o sizes inp = Ok bs ->
+  exists ids outs sum data i s,
+    bw_collect ieee o sizes inp = Ok (ids, outs, sum, data) /\ BBIRead.read_info bs = Ok i /\
+    BBIRead.read_summary bs i = Ok s /\ C06FileIeee.same_summary s sum (C06FileRead.bw_section_count o inp).
+Proof. exact C06FileIeee.bw_file_summary_ieee. Qed.
+Print Assumptions C06_bw_file_summary_ieee.
+
+(* bigBed end to end, both writers (bb_write / bb_write_multipass of Model/BigBedWrite.v, the byte-exact
+   writer model of C02), exact and IEEE arithmetic, hypotheses of C02's whole-file theorem: on the
+   bytes of the written file read_info succeeds, item_count is the number of input entries, and the
+   summary the READER reports is the per-base statistics of the coverage depth of the input: the
+   chromosome runs concatenate to the input, each is valid for the sweep theorems, bases = number of
+   covered bases (each once), sum = sum of depth, sumsq = sum of depth^2, min / max over covered bases
+   (NaN when none), as numbers -- provided the sum of squared depths is below 2^53 (all fields then
+   are binary64 numbers; C06_bb_summary_ieee's bound) *)
+Theorem C06_bb_file_summary_read : forall U two_pass fp o sizes autosql input f,
+  fp = exact \/ fp = ieee ->
+  U <= U32_MAX -> Forall (fun it : BigBedWrite.bitem => BigBedWrite.e_end (snd it) <= U) input ->
+  BedZoomFit.bb_write_either two_pass fp o sizes autosql input = Ok f ->
+  BedEndToEnd.file_hyps o sizes input f ->
+  let chroms := C06FileBed.chroms_of input in
+  sumN (map (c_sumsq U) chroms) < P53 ->
+  exists i s, BBIRead.read_info f = Ok i /\ BBIRead.read_summary f i = Ok s /\
+    BBIReadBed.bb_item_count f i = Ok (Nlen input) /\
+    concat chroms = map (fun it => BigBedWrite.to_sw (snd it)) input /\ Forall (valid_chrom U) chroms /\
+    C06FileBed.sform_num s (Nlen input) (sumN (map (c_cov U) chroms)) (sumN (map (c_sum U) chroms))
+      (sumN (map (c_sumsq U) chroms))
+      (fold_left (fun a es => opt_meet N.min a (c_min U es)) chroms None)
+      (fold_left (fun a es => opt_meet N.max a (c_max U es)) chroms None).
+Proof. exact C06FileBed.bb_file_summary_read. Qed.
+Print Assumptions C06_bb_file_summary_read.
+
+(* the item count alone: every rounding mode, no condition on the depths (C02_written_file_roundtrip) *)
+Theorem C06_bb_file_item_count : forall two_pass fp o sizes autosql input f,
+  BedZoomFit.bb_write_either two_pass fp o sizes autosql input = Ok f ->
+  BedEndToEnd.file_hyps o sizes input f ->
+  exists i, BBIRead.read_info f = Ok i /\ BBIReadBed.bb_item_count f i = Ok (Nlen input).
+Proof. exact C06FileBed.bb_file_item_count. Qed.
+Print Assumptions C06_bb_file_item_count.
+
+(* ---- non-vacuity of the file-level theorems: small concrete files, computed ---- *)
+Definition ex_bw_sizes : list (name * N) := [([99; 104; 114; 49], 20); ([99; 104; 114; 50], 20)].
+(* hypotheses of C06_bw_file_summary on ex_bw_input (1.0 on [0,10), 0.5 on [10,14), -2.5 on [3,5) of chr2):
+   sum = 10 + 2 - 5 = 7, sumsq = 10 + 1 + 12.5 = 23.5 = 47 * 2^-1 *)
+Example C06_example_bw_file_hyps :
+  BigWigFileRoundTrip.opts_ok ex_bw_opts /\ BigWigFileRoundTrip.input_ok ex_bw_sizes ex_bw_input /\
+  Forall (fun it => vfin (-1074) (snd it)) ex_bw_input /\
+  C06FileRead.is_f64 (-1074) (w_sum (-1074) (map snd ex_bw_input)) /\
+  C06FileRead.is_f64 (-1074 + -1074) (w_sumsq (-1074) (map snd ex_bw_input)) /\
+  (exists bs, bw_write exact ex_bw_opts ex_bw_sizes ex_bw_input = Ok bs /\ Nlen bs < RTreeCodec.U64) /\
+  (exists bs, bw_write_multipass exact ex_bw_opts ex_bw_sizes ex_bw_input = Ok bs /\ Nlen bs < RTreeCodec.U64).
+Proof.
+  split; [unfold BigWigFileRoundTrip.opts_ok; cbn; lia|]. split.
+  { unfold BigWigFileRoundTrip.input_ok.
+    assert (Hr : runs ex_bw_input = [([99; 104; 114; 49], map snd (firstn 2 ex_bw_input)); ([99; 104; 114; 50], map snd (skipn 2 ex_bw_input))]) by reflexivity.
+    rewrite Hr. cbn [map fst].
+    split; [repeat constructor; try discriminate; reflexivity|]. split; [reflexivity|].
+    split; [unfold ex_bw_sizes; repeat constructor|unfold ex_bw_input; repeat constructor]. }
+  split; [repeat constructor; vm_compute; discriminate|].
+  split; [apply (C06FileRead.is_f64_intro _ _ 7 0); [vm_compute; repeat split; discriminate|lia|vm_compute; reflexivity]|].
+  split; [apply (C06FileRead.is_f64_intro _ _ 47 (-1)); [vm_compute; repeat split; discriminate|lia|vm_compute; reflexivity]|].
+  split; eexists; (split; [vm_compute; reflexivity|reflexivity]).
+Qed.
+(* the reader run on the computed bytes (both writers): 2 sections, 16 bases, min -2.5, max 1, sum 7, sumsq 23.5 *)
+Example C06_example_bw_file_run :
+  let check w :=
+    match w with
+    | Ok bs => match BBIRead.read_info bs with
+               | Ok i => match BBIRead.read_summary bs i with
+                         | Ok s => su_items s = 2 /\ su_bases s = 16 /\
+                                   C06FileFloat.same_num (su_min s) (FFin (-5) (-1)) /\ C06FileFloat.same_num (su_max s) (FFin 1 0) /\
+                                   C06FileFloat.same_num (su_sum s) (FFin 7 0) /\ C06FileFloat.same_num (su_sumsq s) (FFin 47 (-1))
+                         | _ => False end
+               | _ => False end
+    | _ => False end in
+  check (bw_write exact ex_bw_opts ex_bw_sizes ex_bw_input) /\ check (bw_write_multipass exact ex_bw_opts ex_bw_sizes ex_bw_input).
+Proof. vm_compute. repeat split. Qed.
+
+(* bigBed: the entries of C06_example_bb_hyps (D3 / D13 witnesses inside) as a bigBed input *)
+Definition bent (c : name) (s e : N) : BigBedWrite.bitem :=
+  (c, {| BigBedWrite.e_start := s; BigBedWrite.e_end := e; BigBedWrite.e_rest := [] |}).
+Definition ex_bb_c1 : name := [99; 104; 114; 49].
+Definition ex_bb_c2 : name := [99; 104; 114; 50].
+Definition ex_bb_input : list BigBedWrite.bitem :=
+  [bent ex_bb_c1 0 10; bent ex_bb_c1 0 10; bent ex_bb_c1 5 5; bent ex_bb_c1 5 15; bent ex_bb_c1 20 22; bent ex_bb_c2 5 5].
+Definition ex_bb_sizes : list (name * N) := [(ex_bb_c1, 30); (ex_bb_c2, 30)].
+Example C06_example_bb_file_hyps :
+  C06FileBed.chroms_of ex_bb_input = [ex_c1; ex_c2] /\
+  Forall (fun it : BigBedWrite.bitem => BigBedWrite.e_end (snd it) <= 30) ex_bb_input /\
+  sumN (map (c_sumsq 30) (C06FileBed.chroms_of ex_bb_input)) < P53 /\
+  (exists f, BedZoomFit.bb_write_either false exact ex_bw_opts ex_bb_sizes None ex_bb_input = Ok f /\
+             BedEndToEnd.file_hyps ex_bw_opts ex_bb_sizes ex_bb_input f) /\
+  (exists f, BedZoomFit.bb_write_either true ieee ex_bw_opts ex_bb_sizes None ex_bb_input = Ok f /\
+             BedEndToEnd.file_hyps ex_bw_opts ex_bb_sizes ex_bb_input f).
+Proof.
+  split; [reflexivity|]. split; [repeat constructor; vm_compute; discriminate|].
+  split; [vm_compute; reflexivity|].
+  assert (Hin : BedEndToEnd.input_ok ex_bb_input).
+  { unfold BedEndToEnd.input_ok, ex_bb_input, bent. repeat constructor; cbn; try discriminate; try lia; intros [A B]; discriminate. }
+  split; eexists; (split; [vm_compute; reflexivity|]);
+    (split; [vm_compute; discriminate|]; split; [vm_compute; reflexivity|]; split; [exact Hin|];
+     split; [unfold ex_bb_sizes; repeat constructor|vm_compute; discriminate]).
+Qed.
+(* the reader on the computed bytes: 6 items, 17 covered bases, sum 32, sumsq 72, min 1, max 3 *)
+Example C06_example_bb_file_run :
+  let check w :=
+    match w with
+    | Ok f => match BBIRead.read_info f with
+              | Ok i => match BBIRead.read_summary f i with
+                        | Ok s => C06FileBed.sform_num s 6 17 32 72 (Some 1) (Some 3) /\ BBIReadBed.bb_item_count f i = Ok 6
+                        | _ => False end
+              | _ => False end
+    | _ => False end in
+  check (BedZoomFit.bb_write_either false exact ex_bw_opts ex_bb_sizes None ex_bb_input) /\
+  check (BedZoomFit.bb_write_either true ieee ex_bw_opts ex_bb_sizes None ex_bb_input).
+Proof. vm_compute. repeat split. Qed.
